@@ -22,15 +22,15 @@ type c10Target struct {
 	Idx  int    `json:"i,omitempty"`
 }
 type c10Op struct {
-	K     string     `json:"k"` // create comment edit title status label meta noop
-	A     int        `json:"a"`
-	T     c10Target  `json:"t,omitempty"`
-	Txt   int        `json:"txt,omitempty"`
-	Files []int      `json:"files,omitempty"`
-	Add   []int      `json:"add,omitempty"`
-	Rem   []int      `json:"rem,omitempty"`
-	KV    [][2]int   `json:"kv,omitempty"`
-	St    int        `json:"st,omitempty"`
+	K     string    `json:"k"` // create comment edit title status label meta noop
+	A     int       `json:"a"`
+	T     c10Target `json:"t,omitempty"`
+	Txt   int       `json:"txt,omitempty"`
+	Files []int     `json:"files,omitempty"`
+	Add   []int     `json:"add,omitempty"`
+	Rem   []int     `json:"rem,omitempty"`
+	KV    [][2]int  `json:"kv,omitempty"`
+	St    int       `json:"st,omitempty"`
 }
 type c10Input struct {
 	Ops []c10Op `json:"ops"`
